@@ -435,7 +435,7 @@ void World::on_frame(Client &cl, const Frame &f) {
 		for (auto &c2 : clients) for (size_t i = 0; i < c2.expq.size();) { Exp &x = c2.expq[i]; if (x.optional && x.decision >= 0 && x.decision < (int)model.decisions.size() && model.decisions[x.decision].state != 0) c2.expq.erase(c2.expq.begin() + (long)i); else i++; }
 	}
 	if (cl.closing || cl.no_expect || cl.faulty) return;
-	if (mode == "ledger") { ledger_frame(cl, f); shadow_check_get(cl, f); shadow_check_notify(cl, f); return; }
+	if (mode == "ledger") { ledger_frame(cl, f); shadow_check_get(cl, f); shadow_check_auth(cl, f); shadow_check_notify(cl, f); return; }
 	if (mode != "exact") return;
 	std::string why;
 	for (;;) {
@@ -542,6 +542,8 @@ void World::ledger_request(Client &cl, const std::string &text) {
 		if (id && !is_response && (id->t == JV::Str || id->t == JV::Num)) { cl.ledger[idkey(*id)]++; cl.ledger_turn[idkey(*id)] = (long)res.st.batches; }
 		return;
 	}
+	// password changes attempted while only the ledger judges (after a failed allocation): each may replace an item of the in-memory credential database
+	if (text.find("\"passwd\"") != std::string::npos) { JV q; if (json_parse(text, q)) { if (q.t == JV::Obj && q.gets("method") == "passwd") passwd_in_ledger_mode++; if (q.t == JV::Arr) for (auto &m : q.a) if (m.t == JV::Obj && m.gets("method") == "passwd") passwd_in_ledger_mode++; } }
 	if (!json_parse(text, j)) {
 		// the harness parser is strict, the daemon's is lenient: what it makes of this text is not predictable, so only survival is checked on this connection from here on
 		cl.policy.set("maydrop", JV::boolean(true)); cl.no_expect = true; probe("ledger_unparsable_message"); return;
@@ -620,7 +622,7 @@ void World::check_idle_baseline() {
 	std::string leaked;
 	{ int n = 0; for (auto &b : g_arena.blocks) if (b.live && b.seq > base_last_seq) { if (n++ < 6) leaked += " #" + std::to_string(b.seq) + "(" + std::to_string(b.size) + "B)"; } if (n > 6) leaked += " ..."; }
 	// a password change replaces one item of the in-memory credential database for good: per change three blocks (item, key, value) may differ from the start-up baseline
-	size_t nchg = pw_changes.size();   // an attempt that failed and was rolled back also re-creates the item's key
+	size_t nchg = pw_changes.size() + passwd_in_ledger_mode;   // an attempt that failed and was rolled back also re-creates the item's key
 	if (nchg > 0) {
 		long db = (long)g_arena.live_blocks - (long)base_live_blocks, dy = (long)g_arena.live_bytes - (long)base_live_bytes;
 		if (db < 0 || db > 0 || dy > (long)(nchg * 200) || dy < -(long)(nchg * 200))
